@@ -29,7 +29,7 @@ JoinSet(S) == IF S = {} THEN "" ELSE LET m == CHOOSE y \in S : TRUE IN
 SentinelsAgree(x, secret) ==
   \A l2 \in secret : \E i \in 1..Len(x.obs.sent) : x.obs.sent[i].sid = l2.sid /\ x.obs.sent[i].cp = SentinelCP(l2)
 
-DevCode(d) == CASE d = "DevListNotRedacted" -> "L" [] d = "DevUntypedInlineLosesType" -> "U" [] d = "DevVarDefaultPrinted" -> "D"
+DevCode(d) == "D"
 Judge(x) ==
   LET secret == SecretLeaves(x)
       leaked == {l2.sid : l2 \in {y \in secret : Occurs(SentinelCP(y), x.obs.log)}}
@@ -42,7 +42,7 @@ Judge(x) ==
         ELSE IF Len(x.obs.log) = 0 THEN "invalid:empty-log"
         ELSE IF leaked = {} THEN "ok"
         ELSE IF E = {} THEN "violation:leak"
-        \* short codes (TLC wraps long PrintT lines): L, U, D = DevListNotRedacted, DevUntypedInlineLosesType, DevVarDefaultPrinted
+        \* short code (TLC wraps long PrintT lines): D = DevVarDefaultPrinted
         ELSE "k:" \o JoinSet({DevCode(d) : d \in CHOOSE D \in E : \A D2 \in E : Cardinality(D2) >= Cardinality(D)})
       drift == IF leaked = today THEN "" ELSE "leaks"
   IN <<verdict, drift, Cardinality(leaked), Cardinality(secret)>>
